@@ -270,6 +270,10 @@ func (ps *PartSet) AddPart(part *Part) (bool, error) {
 	if part.Proof.Verify(ps.Hash().Bytes(), part.Bytes) != nil {
 		return false, ErrPartSetInvalidProof
 	}
+	// The proof must be the one for this index in a set of this size
+	if part.Proof.Index != uint64(part.Index) || part.Proof.Total != uint64(ps.total) {
+		return false, ErrPartSetInvalidProof
+	}
 
 	// Add part
 	ps.parts[part.Index] = part
